@@ -32,7 +32,7 @@ pub fn build(s: &C07Scn) -> WorldSys {
 	sys.sweep_at_end = true;
 	sys.miner_delay = s.miner_delay;
 	sys.fee_after_first_stall_block = s.feerate_after_close;
-	sys.oracles.push(Box::new(NoErrorOracle { allow_coop: false, allow_force_by_user: true }));
+	sys.oracles.push(Box::new(NoErrorOracle { allow_coop: false, allow_force_by_user: true, ..Default::default() }));
 	sys.oracles.push(Box::new(CommitmentOracle::new(infos)));
 	sys.oracles.push(Box::new(rev));
 	sys.oracles.push(Box::new(TxValidityOracle::new()));
